@@ -83,8 +83,11 @@ type Transition struct {
 
 // Step is one executed operation with the observations around it.
 type Step struct {
-	Idx   int
-	Op    Op
+	Idx int
+	// Op is the operation as the monitors see it (a block with an injected fault is a block);
+	// Raw is the operation as generated (kept for the replay file).
+	Op  Op
+	Raw Op
 	Res   Result
 	Now   time.Time // block time the operation executed at
 	Pre   *Snap
@@ -240,7 +243,10 @@ func (h *History) Exec(o Op, mons ...Monitor) (*Step, []Violation) {
 	em := sdk.NewEventManager()
 	w.Ctx = w.Ctx.WithEventManager(em)
 	res := w.Apply(o)
-	st := &Step{Idx: len(h.Steps), Op: o, Res: res, Now: w.Now, Pre: pre, SweptS: map[uint64]*big.Int{}, SweptP: map[uint64]*big.Int{}}
+	st := &Step{Idx: len(h.Steps), Op: o, Raw: o, Res: res, Now: w.Now, Pre: pre, SweptS: map[uint64]*big.Int{}, SweptP: map[uint64]*big.Int{}}
+	if o.Kind == OpFaultBlock {
+		st.Op.Kind = OpBlock
+	}
 	st.Post = TakeSnap(w.B, w.Ctx)
 	if res.OK {
 		st.Evs = em.Events()
@@ -433,7 +439,11 @@ func (h *History) absorb(st *Step) {
 func (h *History) OpsLog() []Op {
 	var out []Op
 	for _, s := range h.Steps {
-		out = append(out, s.Op)
+		if s.Raw.Kind != "" {
+			out = append(out, s.Raw)
+		} else {
+			out = append(out, s.Op)
+		}
 	}
 	return out
 }
@@ -446,7 +456,14 @@ func (h *History) Describe() string {
 		if !s.Res.OK {
 			status = "REJ(" + firstLine(s.Res.Err) + ")"
 		}
-		fmt.Fprintf(&sb, "  #%d %s => %s\n", s.Idx, s.Op.String(), status)
+		op := s.Op
+		if s.Raw.Kind != "" {
+			op = s.Raw
+		}
+		if s.Res.FaultHit != "" {
+			status += " [injected fault hit: " + s.Res.FaultHit + "]"
+		}
+		fmt.Fprintf(&sb, "  #%d %s => %s\n", s.Idx, op.String(), status)
 	}
 	return sb.String()
 }
